@@ -161,3 +161,176 @@ def run(ctx: vlib.Ctx, sources: list[str], cases: list[dict]):
     if idx:
         ctx.not_shown("correspondence c05_k19_emit", f"{len(idx)} of {len(lines)} union methods differ from K19.emit: {det}")
     ctx.count(n=len(lines))
+
+
+# ---------------------------------------------------------------------------
+# kernel K105c: the prologue of the discriminated dispatcher
+# ---------------------------------------------------------------------------
+DISCR_HEADER = """From Coq Require Import List String Ascii Bool.
+From Verif Require Import Wire FieldEmitText DiscrEmit K105cProofs.
+From VerifGen Require Import K105c.
+Import ListNotations.
+Open Scope string_scope.
+Definition okd (ls: list string) : bool := lines_eqb (render_prologue prologue) ls.
+"""
+
+DISCR_PROGRAM = '''
+from dataclasses import dataclass
+from typing import Annotated, Union
+from mashumaro import DataClassDictMixin
+from mashumaro.config import BaseConfig
+from mashumaro.types import Discriminator
+from mashumaro.codecs.basic import BasicDecoder
+
+@dataclass
+class KBase(DataClassDictMixin):
+    class Config(BaseConfig):
+        discriminator = Discriminator(field="kind", include_subtypes=True)
+
+@dataclass
+class KA(KBase):
+    kind = "a"
+    x: int = 0
+
+@dataclass
+class PBase(DataClassDictMixin):
+    pass
+
+@dataclass
+class PA(PBase):
+    t = "a"
+
+@dataclass
+class Holder(DataClassDictMixin):
+    f: Annotated[PBase, Discriminator(field="t", include_subtypes=True)]
+    g: Annotated[Union[PA, KA], Discriminator(field="t", include_supertypes=True)] = None
+
+try:
+    KBase.from_dict({"kind": "a"})
+except Exception:
+    pass
+BasicDecoder(KBase)
+BasicDecoder(Annotated[PBase, Discriminator(field="t", include_subtypes=True)])
+'''
+
+
+class AllSources:
+    """records every program text compiled by the type-level method builders and by the class code builder"""
+
+    def __init__(self):
+        self.sources = []
+
+    def __enter__(self):
+        import builtins
+        import mashumaro.core.meta.code.builder as b
+        import mashumaro.core.meta.types.common as c
+        self.mods = [(m, m.__dict__.get("exec")) for m in (b, c)]
+        me = self
+
+        def rec(src, *a, **k):
+            if isinstance(src, str):
+                me.sources.append(src)
+            return builtins.exec(src, *a, **k)
+        for m, _ in self.mods:
+            m.exec = rec
+        return self
+
+    def __exit__(self, *a):
+        for m, old in self.mods:
+            if old is None:
+                try:
+                    del m.exec
+                except AttributeError:
+                    pass
+            else:
+                m.exec = old
+
+
+def prologue_lines(src: str):
+    """the statements of a generated dispatcher before its registry lookup (the third try), normalised"""
+    raw = src.splitlines()
+    start = next((n for n, x in enumerate(raw) if x.lstrip().startswith("def ")), None)
+    if start is None:
+        return None
+    ind = len(raw[start]) - len(raw[start].lstrip(" ")) + 4
+    body = []
+    for x in raw[start + 1:]:
+        if x.strip() and not x.startswith(" " * ind):
+            break
+        body.append(x[ind:])
+    tries = [n for n, x in enumerate(body) if x == "try:"]
+    if len(tries) < 3:
+        return None
+    pro = body[:tries[2]]
+    m = next((re.match(r"^\s*discriminator = value\[(.+)\]$", x) for x in pro if "discriminator = value[" in x), None)
+    if not m:
+        return None
+    f = re.escape(m.group(1))
+    out = []
+    for x in pro:
+        i = len(x) - len(x.lstrip(" "))
+        t = x[i:]
+        if re.match(rf"^discriminator = value\[{f}\]$", t):
+            t = "discriminator = value[FIELD]"
+        elif re.match(rf"^raise MissingDiscriminatorError\({f}\) from None$", t):
+            t = "raise MissingDiscriminatorError(FIELD) from None"
+        elif re.match(r"^raise ValueError\((['\"])Argument for .+ should be a dict instance\1\) from None$", t):
+            t = "raise ValueError(MSG) from None"
+        elif re.match(rf"^raise SuitableVariantNotFoundError\(.+, {f}, discriminator\) from None$", t):
+            t = "raise SuitableVariantNotFoundError(TYPE, FIELD, discriminator) from None"
+        out.append(" " * i + t)
+    return out
+
+
+def run_discr(ctx: vlib.Ctx, extra_sources: list[str] | None = None):
+    name = "c05_discr_prologue_text"
+    if not ctx.kernel_report.get("K105c", {}).get("ok", False):
+        ctx.correspondence(name, 0, -1, str(ctx.kernel_report.get("K105c", {}).get("error")))
+        ctx.not_shown("kernel K105c", str(ctx.kernel_report.get("K105c", {}).get("error")))
+        return
+    import sys
+    import types
+    mname = "c05_discr_prologue_mod"
+    m = types.ModuleType(mname)
+    sys.modules[mname] = m
+    try:
+        with AllSources() as rec:
+            try:
+                exec(compile(DISCR_PROGRAM, f"<{mname}>", "exec"), m.__dict__)
+            except Exception as e:  # noqa: BLE001
+                ctx.correspondence(name, 0, -1, f"{type(e).__name__}: {e}"[:300])
+                ctx.not_shown("correspondence " + name, f"the fixed discriminated hierarchies do not build: {type(e).__name__}: {e}"[:300])
+                return
+    finally:
+        sys.modules.pop(mname, None)
+    srcs = [s for s in rec.sources + list(extra_sources or []) if "discriminator = value[" in s]
+    cases, bad = {}, []
+    for s in srcs:
+        p = prologue_lines(s)
+        if p is None:
+            bad.append(" / ".join(x.strip() for x in s.splitlines()[:8])[:200])
+        else:
+            cases.setdefault("[" + "; ".join(vlib.coq_str(x) for x in p) + "]", " / ".join(x.strip() for x in p)[:300])
+    if bad or len(srcs) < 3:
+        ctx.correspondence(name + "-segmentation", len(srcs), max(len(bad), 1), "; ".join(bad[:3]) or f"only {len(srcs)} dispatchers captured")
+        ctx.not_shown("correspondence " + name, "; ".join(bad[:3]) or f"only {len(srcs)} dispatchers with a field were captured (expected >= 3)")
+        return
+    br = vlib.coq_make(["theories/K105cProofs.vo", "theories/FieldEmitText.vo", "theories/Wire.vo"])
+    if not br.ok:
+        ctx.correspondence(name, len(srcs), -1, "model does not build: " + (br.error or ""))
+        ctx.not_shown("correspondence " + name, "model does not build: " + (br.error or ""))
+        return
+    terms = list(cases)
+    txt = DISCR_HEADER + "Definition cases : list (list string) :=\n  [" + ";\n   ".join(terms) + "].\nEval vm_compute in (bad_idx okd cases).\n"
+    (ok, out), = vlib.coq_eval_many([(name + "_0", txt)], timeout=900, jobs=2)
+    idx = vlib.parse_nat_list(out) if ok else None
+    if idx is None:
+        ctx.correspondence(name, len(srcs), -1, out[-1500:])
+        ctx.not_shown("correspondence " + name, out[-1500:])
+        return
+    det = "; ".join(cases[terms[i]] for i in idx[:3])
+    ctx.hist("discr_prologue_text", "dispatchers", len(srcs))
+    ctx.correspondence(name, len(srcs), len(idx), det)
+    if idx:
+        ctx.not_shown("correspondence " + name, f"{len(idx)} distinct dispatcher prologues differ from K105c.prologue: {det}")
+    ctx.count(n=len(srcs))
